@@ -214,24 +214,40 @@ Print Assumptions spec_tables_agree.
 
 (* ---------------------------------------------------------------- message fields, byte-level codec schemas *)
 (* PK.Codec.Schema's `wr` and `rd` run, for a structure of class k under version v, over `filter (active v)` of the
-   class's items only (by construction, see Schema.v).  For every class k of the regenerated PKGen.Schemas.E, every
-   version v and every item the reader or the writer considers: if the item carries a tag of the specification table,
-   then v is at least the version that introduced the field.  (Versions are 10*major+minor in the schemas.) *)
-Theorem field_gated_schemas : forall c t v0 z (k : Codec.Schema.cls) v (it : Codec.Schema.item),
+   class's items only (by construction, see Schema.v).  Full statement: for every class k of the regenerated
+   PKGen.Schemas.E, every version v and every item the reader or the writer considers, an item carrying a tag of the
+   specification table implies that v is at least the version that introduced the field (10*major+minor there). *)
+Definition field_gated_schemas_statement : Prop :=
+  forall c t v0 z (k : Codec.Schema.cls) v (it : Codec.Schema.item),
   In (c, t, v0) SpecFieldVersions -> SchemaFields.tag_value t = Some z -> In k (Codec.Schema.e_classes Schemas.E) ->
   (In it (filter (Codec.Schema.active v) (Codec.Schema.c_rd k)) \/ In it (filter (Codec.Schema.active v) (Codec.Schema.c_wr k))) ->
   Codec.Schema.i_tag it = z -> SchemaFields.v10 v0 <= v.
-Proof. exact SchemaFields.field_gated_schemas_lemma. Qed.
-Print Assumptions field_gated_schemas.
-(* the guard of such an item is exactly the specification's version and does not close before 2.0 *)
-Theorem spec_field_versions_respected : forall c t v0 z (k : Codec.Schema.cls) (it : Codec.Schema.item),
+(* false on the code as it is (known finding C16-attestation-credential-ungated): AttestationCredential, a KMIP 1.2
+   structure holding Attestation Type, is read and written under 1.0 and 1.1 *)
+Theorem field_gated_schemas_refuted : exists c t v0 z (k : Codec.Schema.cls) v (it : Codec.Schema.item),
+  In (c, t, v0) SpecFieldVersions /\ SchemaFields.tag_value t = Some z /\ In k (Codec.Schema.e_classes Schemas.E) /\
+  In it (filter (Codec.Schema.active v) (Codec.Schema.c_rd k)) /\ Codec.Schema.i_tag it = z /\ v < SchemaFields.v10 v0.
+Proof. exact SchemaFields.field_gated_schemas_refuted. Qed.
+Print Assumptions field_gated_schemas_refuted.
+(* it holds for every other occurrence: the extra hypothesis excludes exactly (AttestationCredential, ATTESTATION_TYPE) *)
+Theorem field_gated_schemas_partial : forall c t v0 z (k : Codec.Schema.cls) v (it : Codec.Schema.item),
   In (c, t, v0) SpecFieldVersions -> SchemaFields.tag_value t = Some z -> In k (Codec.Schema.e_classes Schemas.E) ->
+  SchemaFields.known_ungated (Codec.Schema.c_name k) t = false ->
+  (In it (filter (Codec.Schema.active v) (Codec.Schema.c_rd k)) \/ In it (filter (Codec.Schema.active v) (Codec.Schema.c_wr k))) ->
+  Codec.Schema.i_tag it = z -> SchemaFields.v10 v0 <= v.
+Proof. exact SchemaFields.field_gated_schemas_lemma. Qed.
+Print Assumptions field_gated_schemas_partial.
+(* the guard of such an item is exactly the specification's version and does not close before 2.0 *)
+Theorem spec_field_versions_respected_partial : forall c t v0 z (k : Codec.Schema.cls) (it : Codec.Schema.item),
+  In (c, t, v0) SpecFieldVersions -> SchemaFields.tag_value t = Some z -> In k (Codec.Schema.e_classes Schemas.E) ->
+  SchemaFields.known_ungated (Codec.Schema.c_name k) t = false ->
   In it (SchemaFields.items_of k) -> Codec.Schema.i_tag it = z ->
   Codec.Schema.i_lo it = SchemaFields.v10 v0 /\ SchemaFields.v10 (2, 0) < Codec.Schema.i_hi it.
 Proof. exact SchemaFields.spec_rows_respected. Qed.
-Print Assumptions spec_field_versions_respected.
-(* non-vacuity: at least 8 (class, tag) rows of the table occur in the schemas today (the remaining classes are
-   hand-modelled by the codec builder and excluded from Schemas.E; field_gated above covers them) *)
+Print Assumptions spec_field_versions_respected_partial.
+(* non-vacuity: at least 8 (class, tag) rows of the table occur in the schemas; the exception is a real unguarded item;
+   every class-level refusal of the schemas whose class the specification table lists carries the specification's version
+   and every listed class that is in the schemas has such a refusal (rows of other classes: evidence, uncovered list) *)
 Example field_gated_schemas_hyp : Nat.leb 8 (List.length SchemaFields.schema_covered_rows) = true
-  /\ SchemaFields.schema_class_minver_ok = true.
-Proof. exact (conj SchemaFields.schema_rows_nonvacuous SchemaFields.schema_class_minver_ok_true). Qed.
+  /\ SchemaFields.known_ungated_real = true /\ SchemaFields.schema_class_minver_ok = true.
+Proof. exact (conj SchemaFields.schema_rows_nonvacuous (conj SchemaFields.known_ungated_real_true SchemaFields.schema_class_minver_ok_true)). Qed.
